@@ -108,6 +108,27 @@ def drive(acc, tag, n, envs, profile, builds, salt=None, fixed_seed=None):
     return res, cs
 
 
+def exhaustive(acc, prop, tier, builds):
+    """M/R: programs enumerated by TLC (MC_ChialispGen) with Chialisp!RunProgram's prediction, compiled and run by the harness"""
+    maxlen = 3 if tier == "quick" else 4
+    shapes = "{0, 2, 9, 13}" if tier == "quick" else "{0, 1, 2, 3, 4, 5, 6, 7, 8, 9, 10, 11, 12, 13, 14}"
+    cfg = f"MC_ChialispGen_{prop}.cfg"
+    with open(os.path.join(core.SPEC, cfg), "w") as f:
+        f.write(f"SPECIFICATION Spec\nCONSTANTS MaxLen = {maxlen}\n ShapeSet = {shapes}\nCHECK_DEADLOCK FALSE\n")
+    r = core.run_tlc("MC_ChialispGen", cfg, f"{prop}_gen", workers=14, timeout=6000, coverage=False, heap="16g")
+    if not r.ok:
+        raise core.ToolError(f"MC_ChialispGen: {r.invariant_violated}\n{r.output[-2000:]}")
+    acc.add_tlc("MC_ChialispGen", r)
+    out = os.path.join(core.BUILD, f"{prop}_gen.report.json")
+    core.run_vh(["replay-chialisp", "--in", r.out_path, "--builds", ",".join(builds), "--prop", prop, "--out", out], timeout=6000)
+    os.remove(r.out_path)
+    rep = core.load_json(out)
+    if rep["evaluations"] == 0:
+        raise core.ToolError("vacuous: MC_ChialispGen emitted no program")
+    acc.add_report(rep)
+    acc.exhaustive = True
+
+
 def brief(case, builds):
     return {"source": case["source"], "envs": case["envs"], "features": case["features"],
             "ast": case["ast"], "envs_json": case["envs_json"]}
